@@ -45,6 +45,9 @@ def twin(ctx, rule, prog, a, b, cfg, rename=strip_mut, post=None, what="&/&mut t
     empty_lit = re.compile(r"call <\[T; N\] as core::ops::index::Index<I>>::index\(const, RangeFull::RangeFull\{\}\)")
     ea = [x for x in ea if not empty_lit.fullmatch(x)]
     eb = [x for x in eb if not empty_lit.fullmatch(x)]
+    nested = "<[T; N] as Index<I>>::index(const, RangeFull::RangeFull{})"
+    ea = [x.replace(nested, "const") for x in ea]
+    eb = [x.replace(nested, "const") for x in eb]
     if ea == eb:
         ctx.ok(rule, b, "twin of %s" % a, "%d events (calls with argument provenance, guards, return) equal modulo renaming" % len(ea), cfg)
         return True
